@@ -35,6 +35,11 @@ CLAIMED = {
    note="The classification function is abstract in the model (a query returns the list it answers from). Order-independence of the answers is C03. In-place mutation of a contained PauliString through its own API is outside the listed collection edits. No axioms.",
    technique="Coq invariant proof by induction over operation sequences + model-vs-implementation history replay",
    design="6 C10"),
+ "C18": dict(
+   text="Proof over all edit histories + differential exploration. Proved: after any sequence of set_substring/__setitem__/inc edits (incl. partially executed ones ending in IndexError) the three bit views are consistent (C18_views), hence the object equals the object freshly built from its text and every observation agrees (C18_observations); exact effect of a letter assignment; index(inc)=index+1; gen_all yields indices 0..4^n-1 in order for every n. Per run: edit histories with ~30 observations live vs fresh PauliString(str(P)) and text/even/odd/index vs the model; aliasing probes for tensor/expand/copy/substring; gen_all exact for n<=4 (6 thorough).",
+   note="Aliasing (shared bitarrays) is covered by probes only; bitarray slicing is modelled by evens/odds. No axioms.",
+   technique="Coq invariant over edit sequences (fold_left) + model-vs-implementation replay",
+   design="6 C18"),
  "C04": dict(
    text="Proof: Coq theorems C04_product/commute/adjoint/conj/reject hold for every n and every pair of strings, about a bit-level model of PauliString.sign/commutes_with/multiply/adjoint_map/complex_conj and the Kronecker-product matrices over Z[i]. The model is tied to /repo on every run by a correspondence run: all 16^n pairs n<=3 (n<=4 thorough) plus random pairs up to n=64 and all length mismatches, implementation vs extracted model, and numpy matrices multiplied out for n<=3.",
    note="Trusted: Coq kernel, extraction (ExtrOcamlBasic), OCaml driver, Python harness; numpy kron/@ taken as the matrices. No axioms (Print Assumptions: closed).",
